@@ -286,8 +286,9 @@ Proof.
     apply p3_bind; [apply p3_keeps, ksv_modify; intros w0; destruct w0; split; reflexivity|]. intros ?.
     apply p3_keeps, keeps_ret. }
   intros changed.
-  apply p3_bind; [apply p3_keeps, ksv_modify; intros w0; destruct w0; split; reflexivity|]. intros ?.
+  apply p3_bind; [apply p3_keeps, keeps_when, ksv_modify; intros w0; destruct w0; split; reflexivity|]. intros ?.
   apply p3_bind; [apply p3_keeps, ksv_deliver|]. intros ?.
+  apply p3_bind; [apply p3_keeps, keeps_when, ksv_modify; intros w0; destruct w0; split; reflexivity|]. intros ?.
   destruct changed as [m|]; [|apply p3_keeps, keeps_ret].
   apply p3_keeps, keeps_mfor. intros kv. apply ksv_notify.
 Qed.
@@ -491,6 +492,7 @@ Section AllOps3.
 Variable I : iface.
 Variable sw : switches.
 Hypothesis Hfirst : sw_cont_check_first sw = true.
+Hypothesis Hdec : sw_counter_dec_first sw = true.
 
 Definition InvAll (w : world) : Prop := Inv w /\ Inv3 w.
 
@@ -517,7 +519,7 @@ Theorem all_invariants_preserved : forall ops w,
 Proof.
   induction ops as [|op r IH]; intros w [Hi H3] Hnp; cbn [run_story_ops]; [split; assumption|].
   destruct Hnp as [Hp Hr]. apply IH; [|exact Hr].
-  pose proof (invariant_preserved I sw Hfirst [op] w Hi (conj Hp Logic.I)) as Hi'. cbn [run_story_ops] in Hi'.
+  pose proof (invariant_preserved I sw Hfirst Hdec [op] w Hi (conj Hp Logic.I)) as Hi'. cbn [run_story_ops] in Hi'.
   destruct Hi as [H0 H2].
   pose proof (story_op_inv3 op w (conj H2 H3)) as H3'.
   destruct (run_story_op I sw op w) as [[x|k e|s] w'] eqn:E; cbn [snd fst] in *.
